@@ -49,6 +49,12 @@ prop("C18", stems=["Bezier"], props=["Props/C18.v"], falsify="falsify_C18",
      technique="Coq proof (field + Coquelicot auto_derive) over a model regenerated from source by a translator",
      explanation="Bezier evaluation/derivative/solver identities for all control points, durations and times")
 
+prop("C13", stems=["Rdd2"], props=["Props/C13.v"], falsify="falsify_C13",
+     level_text="Kernel-checked on the regenerated allocator (257 instructions, ~21 comparisons), for all demands and all constants: every motor force lies in [0, F_max]; every motor speed is a non-negative real with omega^2 Ct = F (Ct > 0); a jointly achievable demand (all four F_moment+F_thrust in [0, F_max], closed boundary included) is reproduced exactly. Proved by slicing the predicate-transformer form, never unfolding the unit. Partial: 'moment realised exactly with the least thrust shift when only the moment is achievable' is NOT a theorem in this snapshot (the case analysis did not finish within the time budget; proof attempt kept as Proofs/C13_moment.v.wip) and is watched by the numeric search only; the mixer-inverse identity (forces mix back to the range-limited demand) is checked numerically.",
+     level_note=GEN_NOTE + "Theorems are stated on the _wp form (same let-chain as the function form, printed from one instruction list).",
+     technique="Coq proof (SSA slicing + lra case analysis) over a model regenerated from source by a translator",
+     explanation="allocator contracts for all thrust/moment demands and all positive constants")
+
 prop("C16", stems=["Quadrotor"], props=["Props/C16.v"], falsify="falsify_C16",
      level_text="Kernel-checked theorems over the regenerated real-number model of quadrotor.derive_model(): q.qdot=0, quaternion and position kinematics, hover equilibrium, free-fall accelerometer, rotor-sum wrench (Euler and Newton equations), motor first-order law, translation and yaw equivariance, for ALL states, inputs and parameter vectors (parameters are symbolic). Not proved: the exponential closed-form motor response (only the ODE right-hand side), drag-on branch of the force sum.",
      level_note=GEN_NOTE + "Numeric search on the real functions (harness/falsify_C16.py) supports replay generation only.",
